@@ -10,16 +10,22 @@ objects and have one function per Python method.  `ArcAbs.specStep` / `SeqAbs.sp
 the problem data alone.  This file proves
 
 * `arc_step_coherent`, `arc_refines` (and `seq_…`): for every call history — queries in any number and order, any number
-  of heuristic runs, including runs that raise and leave the object half-modified — the object's replies are exactly
-  those of the specification and the abstraction (forget flags and caches) of the final object is the final
-  specification state;
-* the two clauses of the property: `arc_query_idempotent`, `arc_queries_irrelevant` (and `seq_…`);
+  of heuristic runs, including runs that raise and leave the object half-modified, and any number of calls of the
+  public mutators (`add_time_points`, `set_max_vehicles`, `set_max_sequence_length`, `add_arc`, `add_node`, `set_depot`,
+  `set_vehicle_cap`, `set_initial_loading`), including calls that raise — the object's replies are exactly those of the
+  specification and the abstraction (forget flags and caches) of the final object is the final specification state;
+* the two clauses of the property: `arc_query_idempotent`, `arc_queries_irrelevant` (and `seq_…`); a QUERY is an
+  operation that is neither a heuristic run nor a mutator, and `arc_queries_irrelevant` deletes exactly the queries
+  (`ops.filter (fun op => op.isHeur || op.isMutator)` keeps every state-changing call);
 * the connection to the instance-level heuristics of `VrpModel/Heuristics.lean`
   (`arc_makeFeasible_connection`, `seq_makeFeasible_connection`), so that the soundness theorems of `Props/C09*.lean`
   apply to what the object stores;
-* expressiveness checks: defective variants of the arc heuristic's flag resets for which refinement FAILS
-  (`v1b_not_refines`, `v1c_not_refines`, `v2_not_refines`), and the observation that the variant V1 of the task
-  (exit-arc site forgets `objective_built`, loop head intact) is NOT a defect (`v1_equivalent`).
+* expressiveness checks.  A mutator that forgets the hook breaks refinement on a query–mutator–query history
+  (`arc_addTimePoints_nohook_not_refines`, `seq_setMaxVehicles_nohook_not_refines`), and so does the sequence heuristic
+  without its loop-head reset (`seq_head_noreset_not_refines`).  The former defective variants of the EXPLICIT resets
+  inside the heuristics (`v1b`, `v1c`, `v2`, `seq_exit_noreset`) are no longer defects, because the `add_arc` they sit
+  next to now runs the hook itself: they are restated as `v1b_refines`, `v1c_refines`, `v2_refines`,
+  `seq_exit_noreset_equivalent`; `v1_equivalent` is unchanged.
 -/
 namespace Vrp.C14c
 open Vrp
@@ -30,44 +36,56 @@ theorem arc_abs_of_qpost {o o' : ArcObj} (h : ArcObj.QPost o o') : o'.abs = o.ab
   unfold ArcObj.abs
   rw [h.2.1, h.2.2]
 
-/-- one call from a coherent state: same reply as the specification, abstraction commutes, coherence preserved
-    (every operation, including a heuristic run that raises) -/
-theorem arc_step_refines {o : ArcObj} (hc : o.Coherent) (op : ArcFOp) :
-    (o.step op).2 = (o.abs.specStep op).2 ∧ (o.step op).1.abs = (o.abs.specStep op).1 ∧ (o.step op).1.Coherent := by
+/-- a base-class mutator: same reply as the specification, abstraction commutes, and the object is coherent afterwards
+    because the hook has unset every flag (also when the call raises) -/
+theorem arc_mutate_refines (o : ArcObj) (m : GMut) :
+    ArcReply.ofGOut (o.mutate m).2 = (o.abs.mutate m).2 ∧ (o.mutate m).1.abs = (o.abs.mutate m).1 ∧
+      (o.mutate m).1.Coherent :=
+  ⟨rfl, rfl, (ArcObj.mutate_spec o m).1.coherent⟩
+
+/-- one call from a coherent state, with ANY harmless flag actions at the two explicit reset sites of the heuristic:
+    same reply as the specification, abstraction commutes, coherence preserved (every operation — queries, mutators
+    including raising ones, and heuristic runs including raising ones) -/
+theorem arc_stepWith_refines {head exit : ArcObj → ArcObj} (hh : ArcObj.Harmless head) (hx : ArcObj.Harmless exit)
+    {o : ArcObj} (hc : o.Coherent) (op : ArcFOp) :
+    (o.stepWith head exit op).2 = (o.abs.specStep op).2 ∧ (o.stepWith head exit op).1.abs = (o.abs.specStep op).1 ∧
+      (o.stepWith head exit op).1.Coherent := by
   cases op with
   | numVars =>
-    have hs : o.step .numVars = (o.getNumVariables.1, ArcReply.num o.getNumVariables.2) := rfl
+    have hs : o.stepWith head exit .numVars = (o.getNumVariables.1, ArcReply.num o.getNumVariables.2) := rfl
     rw [hs, ArcObj.getNum_eq hc]
     exact ⟨rfl, arc_abs_of_qpost (ArcObj.qpost_E hc), ArcObj.coherent_E hc⟩
   | varIndex u =>
-    have hs : o.step (.varIndex u) = ((o.getVarIndex u).1, ArcReply.idx (o.getVarIndex u).2) := rfl
+    have hs : o.stepWith head exit (.varIndex u) = ((o.getVarIndex u).1, ArcReply.idx (o.getVarIndex u).2) := rfl
     rw [hs, ArcObj.getVarIndex_eq hc]
     exact ⟨rfl, arc_abs_of_qpost (ArcObj.qpost_E hc), ArcObj.coherent_E hc⟩
   | varTuple k =>
-    have hs : o.step (.varTuple k) = ((o.getVarTupleIndex k).1, ArcReply.tup (o.getVarTupleIndex k).2) := rfl
+    have hs : o.stepWith head exit (.varTuple k)
+        = ((o.getVarTupleIndex k).1, ArcReply.tup (o.getVarTupleIndex k).2) := rfl
     rw [hs, ArcObj.getVarTupleIndex_eq hc]
     exact ⟨rfl, arc_abs_of_qpost (ArcObj.qpost_E hc), ArcObj.coherent_E hc⟩
   | objective =>
     obtain ⟨hq, hd⟩ := ArcObj.getObjectiveData_spec hc
-    have hs : o.step .objective
+    have hs : o.stepWith head exit .objective
         = (o.getObjectiveData.1, ArcReply.obj o.getObjectiveData.2.1 o.getObjectiveData.2.2) := rfl
     rw [hs, hd]
     exact ⟨rfl, arc_abs_of_qpost hq, hq.1⟩
   | constraints =>
     obtain ⟨hq, hd⟩ := ArcObj.getConstraintData_spec hc
-    have hs : o.step .constraints = (o.getConstraintData.1, ArcReply.con o.getConstraintData.2.1
+    have hs : o.stepWith head exit .constraints = (o.getConstraintData.1, ArcReply.con o.getConstraintData.2.1
       o.getConstraintData.2.2.1 o.getConstraintData.2.2.2.1 o.getConstraintData.2.2.2.2) := rfl
     rw [hs, hd]
     exact ⟨rfl, arc_abs_of_qpost hq, hq.1⟩
   | qubo feas rho? =>
     obtain ⟨hq, hd⟩ := ArcObj.getQubo_spec hc feas rho?
-    have hs : o.step (.qubo feas rho?) = ((o.getQubo feas rho?).1, (match (o.getQubo feas rho?).2 with
+    have hs : o.stepWith head exit (.qubo feas rho?) = ((o.getQubo feas rho?).1, (match (o.getQubo feas rho?).2 with
         | .ok q => ArcReply.qubo q | .error e => ArcReply.raised e)) := rfl
     rw [hs, hd]
     exact ⟨rfl, arc_abs_of_qpost hq, hq.1⟩
   | heur high =>
-    obtain ⟨h1, h2, h3⟩ := ArcObj.makeFeasible_spec hc high
-    have hs : o.step (.heur high) = ((o.makeFeasible high).1, (match (o.makeFeasible high).2 with
+    obtain ⟨h1, h2, h3⟩ := ArcObj.makeFeasibleWith_spec hh hx hc high
+    have hs : o.stepWith head exit (.heur high) = ((o.makeFeasibleWith head exit high).1,
+        (match (o.makeFeasibleWith head exit high).2 with
         | .ok _ => ArcReply.done | .error e => ArcReply.raised e)) := rfl
     rw [hs]
     unfold ArcAbs.specStep
@@ -88,6 +106,17 @@ theorem arc_step_refines {o : ArcObj} (hc : o.Coherent) (op : ArcFOp) :
       rw [hr] at h3
       simp only [h3.2]
       exact ⟨trivial, by unfold ArcObj.abs; rw [h2, h3.1], h1⟩
+  | addTimePoints pts => exact ⟨rfl, rfl, (ArcObj.addTimePoints_spec o pts).1.coherent⟩
+  | addArc og d t c => exact arc_mutate_refines o _
+  | addNode nm dem lo hi => exact arc_mutate_refines o _
+  | setDepot nm => exact arc_mutate_refines o _
+  | setVehicleCap c => exact arc_mutate_refines o (.cap c)
+  | setInitialLoading l => exact arc_mutate_refines o (.init l)
+
+/-- one call on the real object from a coherent state -/
+theorem arc_step_refines {o : ArcObj} (hc : o.Coherent) (op : ArcFOp) :
+    (o.step op).2 = (o.abs.specStep op).2 ∧ (o.step op).1.abs = (o.abs.specStep op).1 ∧ (o.step op).1.Coherent :=
+  arc_stepWith_refines ArcObj.harmless_resetAll ArcObj.harmless_resetAll hc op
 
 /-- `coherent_init` -/
 theorem arc_coherent_init (I : ArcInst) : (ArcObj.init I).Coherent := ArcObj.coherent_init I
@@ -107,19 +136,25 @@ theorem arc_run_append (o : ArcObj) (a b : List ArcFOp) :
     rw [List.cons_append, arc_run_cons, ih, arc_run_cons]
     rfl
 
-/-- refinement from an arbitrary coherent state -/
-theorem arc_run_refines {o : ArcObj} (hc : o.Coherent) (ops : List ArcFOp) :
-    (o.run ops).2 = (o.abs.specRun ops).2 ∧ (o.run ops).1.abs = (o.abs.specRun ops).1 ∧ (o.run ops).1.Coherent := by
+/-- refinement from an arbitrary coherent state, for any harmless flag actions at the two explicit reset sites -/
+theorem arc_runWith_refines {head exit : ArcObj → ArcObj} (hh : ArcObj.Harmless head) (hx : ArcObj.Harmless exit)
+    {o : ArcObj} (hc : o.Coherent) (ops : List ArcFOp) :
+    (o.runWith head exit ops).2 = (o.abs.specRun ops).2 ∧ (o.runWith head exit ops).1.abs = (o.abs.specRun ops).1 ∧
+      (o.runWith head exit ops).1.Coherent := by
   induction ops generalizing o with
   | nil => exact ⟨rfl, rfl, hc⟩
   | cons op rest ih =>
-    obtain ⟨h1, h2, h3⟩ := arc_step_refines hc op
+    obtain ⟨h1, h2, h3⟩ := arc_stepWith_refines hh hx hc op
     obtain ⟨i1, i2, i3⟩ := ih h3
-    rw [arc_run_cons]
-    unfold ArcAbs.specRun
+    unfold ArcObj.runWith ArcAbs.specRun
     simp only
     rw [← h2, ← h1, i1, i2]
     exact ⟨rfl, rfl, i3⟩
+
+/-- refinement from an arbitrary coherent state -/
+theorem arc_run_refines {o : ArcObj} (hc : o.Coherent) (ops : List ArcFOp) :
+    (o.run ops).2 = (o.abs.specRun ops).2 ∧ (o.run ops).1.abs = (o.abs.specRun ops).1 ∧ (o.run ops).1.Coherent :=
+  arc_runWith_refines ArcObj.harmless_resetAll ArcObj.harmless_resetAll hc ops
 
 /-- **refinement**: for every history the object produces exactly the replies of the cache-free specification, and
     the final problem data and stored solution agree -/
@@ -129,17 +164,22 @@ theorem arc_refines (I : ArcInst) (ops : List ArcFOp) :
   obtain ⟨h1, h2, _⟩ := arc_run_refines (arc_coherent_init I) ops
   exact ⟨h1, h2⟩
 
-/-- in the specification a query changes nothing -/
-theorem arc_spec_query_pure (s : ArcAbs) (q : ArcFOp) (hq : q.isHeur = false) : (s.specStep q).1 = s := by
-  cases q <;> first | rfl | simp [ArcFOp.isHeur] at hq
+/-- in the specification a query (neither heuristic nor mutator) changes nothing -/
+theorem arc_spec_query_pure (s : ArcAbs) (q : ArcFOp) (hq : q.isChange = false) : (s.specStep q).1 = s := by
+  cases q <;> first | rfl | simp [ArcFOp.isChange, ArcFOp.isHeur, ArcFOp.isMutator, ArcFOp.gmut?] at hq
 
-/-- in the specification the final state only depends on the heuristic calls -/
+theorem arc_isChange_false {q : ArcFOp} (hq : q.isHeur = false) (hm : q.isMutator = false) : q.isChange = false := by
+  unfold ArcFOp.isChange
+  rw [hq, hm]
+  rfl
+
+/-- in the specification the final state only depends on the state-changing calls (heuristic runs and mutators) -/
 theorem arc_spec_run_filter (s : ArcAbs) (ops : List ArcFOp) :
-    (s.specRun ops).1 = (s.specRun (ops.filter ArcFOp.isHeur)).1 := by
+    (s.specRun ops).1 = (s.specRun (ops.filter ArcFOp.isChange)).1 := by
   induction ops generalizing s with
   | nil => rfl
   | cons op rest ih =>
-    cases hq : op.isHeur with
+    cases hq : op.isChange with
     | true =>
       rw [List.filter_cons_of_pos hq]
       simp only [ArcAbs.specRun]
@@ -150,32 +190,39 @@ theorem arc_spec_run_filter (s : ArcAbs) (ops : List ArcFOp) :
       rw [arc_spec_query_pure s op hq]
       exact ih s
 
-/-- replies given to the heuristic calls of a history -/
-def arcHeurReplies (ops : List ArcFOp) (rs : List ArcReply) : List ArcReply :=
-  ((ops.zip rs).filter fun e => e.1.isHeur).map (·.2)
+/-- replies given to the state-changing calls (heuristic runs and mutators) of a history -/
+def arcChangeReplies (ops : List ArcFOp) (rs : List ArcReply) : List ArcReply :=
+  ((ops.zip rs).filter fun e => e.1.isHeur || e.1.isMutator).map (·.2)
 
-theorem arc_spec_heur_replies (s : ArcAbs) (ops : List ArcFOp) :
-    arcHeurReplies ops (s.specRun ops).2 = (s.specRun (ops.filter ArcFOp.isHeur)).2 := by
+theorem arc_spec_change_replies (s : ArcAbs) (ops : List ArcFOp) :
+    arcChangeReplies ops (s.specRun ops).2 = (s.specRun (ops.filter ArcFOp.isChange)).2 := by
   induction ops generalizing s with
   | nil => rfl
   | cons op rest ih =>
-    cases hq : op.isHeur with
+    have hp : ∀ (r : ArcReply) l, ((op, r) :: l).filter (fun e => e.1.isHeur || e.1.isMutator)
+        = if op.isChange then (op, r) :: l.filter (fun e => e.1.isHeur || e.1.isMutator)
+          else l.filter (fun e => e.1.isHeur || e.1.isMutator) := fun r l => by
+      rw [List.filter_cons]
+      rfl
+    cases hq : op.isChange with
     | true =>
       rw [List.filter_cons_of_pos hq]
-      simp only [ArcAbs.specRun, arcHeurReplies, List.zip_cons_cons, List.filter_cons_of_pos, hq, List.map_cons]
+      simp only [ArcAbs.specRun, arcChangeReplies, List.zip_cons_cons, hp, hq, if_true, List.map_cons]
       exact congrArg _ (ih _)
     | false =>
       rw [List.filter_cons_of_neg (by simp [hq])]
-      simp only [ArcAbs.specRun, arcHeurReplies, List.zip_cons_cons]
-      rw [List.filter_cons_of_neg (by simp [hq]), arc_spec_query_pure s op hq]
+      simp only [ArcAbs.specRun, arcChangeReplies, List.zip_cons_cons, hp, hq, Bool.false_eq_true, if_false]
+      rw [arc_spec_query_pure s op hq]
       exact ih s
 
-/-- **asking twice gives equal results**: after any history, repeating a query gives the same reply, and the query
-    leaves the problem data and the stored solution as they were -/
-theorem arc_query_idempotent (I : ArcInst) (ops : List ArcFOp) (q : ArcFOp) (hq : q.isHeur = false) :
+/-- **asking twice gives equal results**: after any history (queries, mutators, heuristic runs), repeating a query gives
+    the same reply, and the query leaves the problem data and the stored solution as they were -/
+theorem arc_query_idempotent (I : ArcInst) (ops : List ArcFOp) (q : ArcFOp) (hq : q.isHeur = false)
+    (hm : q.isMutator = false) :
     let o := ((ArcObj.init I).run ops).1
     (o.step q).2 = ((o.step q).1.step q).2 ∧ (o.step q).1.abs = o.abs ∧ ((o.step q).1.step q).1.abs = o.abs := by
   intro o
+  have hq := arc_isChange_false hq hm
   obtain ⟨_, _, hc⟩ := arc_run_refines (arc_coherent_init I) ops
   obtain ⟨h1, h2, h3⟩ := arc_step_refines hc q
   obtain ⟨k1, k2, _⟩ := arc_step_refines h3 q
@@ -186,33 +233,40 @@ theorem arc_query_idempotent (I : ArcInst) (ops : List ArcFOp) (q : ArcFOp) (hq 
 
 /-- any two queries commute as far as replies are concerned: the reply to `q₂` does not depend on whether `q₁` was
     asked before ("in any order") -/
-theorem arc_query_order (I : ArcInst) (ops : List ArcFOp) (q₁ q₂ : ArcFOp) (hq : q₁.isHeur = false) :
+theorem arc_query_order (I : ArcInst) (ops : List ArcFOp) (q₁ q₂ : ArcFOp) (hq : q₁.isHeur = false)
+    (hm : q₁.isMutator = false) :
     let o := ((ArcObj.init I).run ops).1
     ((o.step q₁).1.step q₂).2 = (o.step q₂).2 := by
   intro o
+  have hq := arc_isChange_false hq hm
   obtain ⟨_, _, hc⟩ := arc_run_refines (arc_coherent_init I) ops
   obtain ⟨_, h2, h3⟩ := arc_step_refines hc q₁
   rw [(arc_step_refines h3 q₂).1, (arc_step_refines hc q₂).1, h2, arc_spec_query_pure _ q₁ hq]
 
-/-- **queries issued before (or between) heuristic runs do not alter anything obtained afterwards**: deleting all
-    queries from a history changes neither the problem data, nor the stored solution, nor the outcome of any heuristic
-    run in it, nor any reply to calls made later -/
+/-- **queries do not alter anything obtained afterwards**: deleting all queries from a history — keeping every
+    state-changing call, i.e. every heuristic run and every mutator — changes neither the problem data, nor the stored
+    solution, nor the reply of any kept call (outcome of a heuristic run, return value / exception of a mutator), nor
+    any reply to calls made later -/
 theorem arc_queries_irrelevant (I : ArcInst) (ops later : List ArcFOp) :
-    ((ArcObj.init I).run ops).1.abs = ((ArcObj.init I).run (ops.filter ArcFOp.isHeur)).1.abs ∧
-    arcHeurReplies ops ((ArcObj.init I).run ops).2 = ((ArcObj.init I).run (ops.filter ArcFOp.isHeur)).2 ∧
-    (((ArcObj.init I).run ops).1.run later).2 = (((ArcObj.init I).run (ops.filter ArcFOp.isHeur)).1.run later).2 := by
+    let f := ops.filter (fun op => op.isHeur || op.isMutator)
+    ((ArcObj.init I).run ops).1.abs = ((ArcObj.init I).run f).1.abs ∧
+    arcChangeReplies ops ((ArcObj.init I).run ops).2 = ((ArcObj.init I).run f).2 ∧
+    (((ArcObj.init I).run ops).1.run later).2 = (((ArcObj.init I).run f).1.run later).2 := by
+  show ((ArcObj.init I).run ops).1.abs = ((ArcObj.init I).run (ops.filter ArcFOp.isChange)).1.abs ∧
+    arcChangeReplies ops ((ArcObj.init I).run ops).2 = ((ArcObj.init I).run (ops.filter ArcFOp.isChange)).2 ∧
+    (((ArcObj.init I).run ops).1.run later).2 = (((ArcObj.init I).run (ops.filter ArcFOp.isChange)).1.run later).2
   obtain ⟨r1, a1, c1⟩ := arc_run_refines (arc_coherent_init I) ops
-  obtain ⟨r2, a2, c2⟩ := arc_run_refines (arc_coherent_init I) (ops.filter ArcFOp.isHeur)
-  have h : ((ArcObj.init I).run ops).1.abs = ((ArcObj.init I).run (ops.filter ArcFOp.isHeur)).1.abs := by
+  obtain ⟨r2, a2, c2⟩ := arc_run_refines (arc_coherent_init I) (ops.filter ArcFOp.isChange)
+  have h : ((ArcObj.init I).run ops).1.abs = ((ArcObj.init I).run (ops.filter ArcFOp.isChange)).1.abs := by
     rw [a1, a2]; exact arc_spec_run_filter _ ops
   refine ⟨h, ?_, ?_⟩
-  · rw [r1, r2]; exact arc_spec_heur_replies _ ops
+  · rw [r1, r2]; exact arc_spec_change_replies _ ops
   · rw [(arc_run_refines c1 later).1, (arc_run_refines c2 later).1, h]
 
 /-- in particular the routes decoded from any solution vector and the index maps are the same -/
 theorem arc_queries_irrelevant_decode (I : ArcInst) (ops : List ArcFOp) (x : List Rat) (u : ATup) (k : Nat) :
     let o₁ := ((ArcObj.init I).run ops).1
-    let o₂ := ((ArcObj.init I).run (ops.filter ArcFOp.isHeur)).1
+    let o₂ := ((ArcObj.init I).run (ops.filter (fun op => op.isHeur || op.isMutator))).1
     o₁.inst.decode x = o₂.inst.decode x ∧ o₁.inst.varIndex u = o₂.inst.varIndex u ∧
       o₁.inst.varTuple k = o₂.inst.varTuple k ∧ o₁.sol = o₂.sol := by
   intro o₁ o₂
@@ -272,10 +326,23 @@ theorem arc_makeFeasible_connection_run (I : ArcInst) (ops : List ArcFOp) (high 
     (∀ e, o.inst.makeFeasible high = .error e ↔ (o.makeFeasible high).2 = .error e) :=
   arc_makeFeasible_connection (arc_run_refines (arc_coherent_init I) ops).2.2 high
 
-/-! ### expressiveness: defective flag resets in the arc heuristic -/
+/-! ### the explicit flag resets inside the arc heuristic after the introduction of the hook
+
+Before the mutators called `_problem_changed()`, the two explicit reset sites of `make_feasible` (loop head,
+`check_and_add_exit_arc`) were the only thing that kept the caches honest, and the variants V1b / V1c / V2 below
+(a forgotten flag, a dropped loop-head reset) broke refinement (`v1b_not_refines`, `v1c_not_refines`,
+`v2_not_refines` of the previous version of this file, proved by `decide` on `exHist`).  Now every change of the problem
+data inside the heuristic goes through the public `add_arc`, which runs the hook first.  Consequently **those three
+statements are no longer true**; what is true, and proved here, is the opposite: ANY harmless flag action at the two
+sites (in particular the three variants) refines the specification on every history (`arc_runWith_refines`).  The
+variants remain distinguishable from the code at flag level (`v2_flags_differ`), which is what the differential harness
+compares. -/
 
 /-- a reset that forgets `objective_built` -/
 def resetVC (o : ArcObj) : ArcObj := { o with variablesEnumerated := false, constraintsBuilt := false }
+
+theorem harmless_resetVC : ArcObj.Harmless resetVC :=
+  ⟨fun _ => ⟨rfl, rfl⟩, fun _ hc => ⟨by simp [resetVC], hc.obj, by simp [resetVC]⟩⟩
 
 theorem v1_dummyStep (t0 high : Rat) (o : ArcObj) (used : List ATup) (n : Nat) :
     ArcObj.dummyStep ArcObj.resetAll resetVC t0 high o used n
@@ -293,8 +360,8 @@ theorem v1_dummyLoop (t0 high : Rat) (o : ArcObj) (used : List ATup) (l : List N
     | error e => rfl
     | ok used' => exact ih _ _
 
-/-- **V1 of the task is not a defect**: if `check_and_add_exit_arc` forgets to reset `objective_built` while the loop
-    head still resets all three flags, `make_feasible` behaves exactly as the real code, on every object — the loop head
+/-- **V1 of the task is not a defect**: if `check_and_add_exit_arc` forgets to reset `objective_built`, `make_feasible`
+    behaves exactly as the real code, on every object, flags included — the hook inside `add_arc` (and the loop head)
     has already unset the flag and nothing can set it again before the exit-arc site -/
 theorem v1_equivalent (o : ArcObj) (high : Rat) :
     o.makeFeasibleWith ArcObj.resetAll resetVC high = o.makeFeasible high := by
@@ -319,39 +386,100 @@ def exInst2 : ArcInst :=
 
 def exHist : List ArcFOp := [.objective, .heur 100, .objective]
 
-/-- **V1b** (`objective_built` forgotten at BOTH reset sites): the objective asked for before the heuristic is served
-    again afterwards although two arcs were added — refinement fails -/
-theorem v1b_not_refines :
-    ((ArcObj.init exInst1).runWith resetVC resetVC exHist).2 ≠ (({ inst := exInst1 } : ArcAbs).specRun exHist).2 := by
+/-- **V1b** (`objective_built` forgotten at BOTH explicit reset sites).  RESTATED (was `v1b_not_refines`, which held
+    while `add_arc` did not invalidate the caches): the variant now refines the specification on every history, because
+    the entry arc is added through `add_arc`, whose hook unsets all three flags. -/
+theorem v1b_refines (I : ArcInst) (ops : List ArcFOp) :
+    ((ArcObj.init I).runWith resetVC resetVC ops).2 = (({ inst := I } : ArcAbs).specRun ops).2 :=
+  (arc_runWith_refines harmless_resetVC harmless_resetVC (arc_coherent_init I) ops).1
+
+/-- the former counterexample of V1b, evaluated: the replies now agree -/
+theorem v1b_former_cex_agrees :
+    ((ArcObj.init exInst1).runWith resetVC resetVC exHist).2 = (({ inst := exInst1 } : ArcAbs).specRun exHist).2 := by
   decide +kernel
 
-/-- **V1c** (`objective_built` forgotten at the loop head only): goes unnoticed on `exInst1` (the exit-arc site repairs
-    it) but fails as soon as the unvisited node already has its exit arc -/
-theorem v1c_not_refines :
-    ((ArcObj.init exInst2).runWith resetVC ArcObj.resetAll exHist).2 ≠ (({ inst := exInst2 } : ArcAbs).specRun exHist).2 := by
+/-- **V1c** (`objective_built` forgotten at the loop head only).  RESTATED (was `v1c_not_refines`): refines on every
+    history, for the same reason. -/
+theorem v1c_refines (I : ArcInst) (ops : List ArcFOp) :
+    ((ArcObj.init I).runWith resetVC ArcObj.resetAll ops).2 = (({ inst := I } : ArcAbs).specRun ops).2 :=
+  (arc_runWith_refines harmless_resetVC ArcObj.harmless_resetAll (arc_coherent_init I) ops).1
+
+theorem v1c_former_cex_agrees :
+    ((ArcObj.init exInst2).runWith resetVC ArcObj.resetAll exHist).2 = (({ inst := exInst2 } : ArcAbs).specRun exHist).2 := by
   decide +kernel
 
 theorem v1c_unnoticed_on_exInst1 :
-    ((ArcObj.init exInst1).runWith resetVC ArcObj.resetAll exHist).2 = (({ inst := exInst1 } : ArcAbs).specRun exHist).2 := by
-  decide +kernel
+    ((ArcObj.init exInst1).runWith resetVC ArcObj.resetAll exHist).2 = (({ inst := exInst1 } : ArcAbs).specRun exHist).2 :=
+  v1c_refines exInst1 exHist
 
-/-- **V2** (the loop head resets nothing, only the exit-arc site resets): with an unvisited node that already has its
-    exit arc and a query before the heuristic, the final `enumerate_variables()` is skipped, the new entry arc has no
-    variable in the stale `var_mapping` and the heuristic raises although the specification succeeds -/
-theorem v2_not_refines :
-    ((ArcObj.init exInst2).runWith id ArcObj.resetAll exHist).2 ≠ (({ inst := exInst2 } : ArcAbs).specRun exHist).2 := by
-  decide +kernel
+/-- **V2** (the loop head resets nothing, only the exit-arc site resets).  RESTATED (was `v2_not_refines`: with the old
+    `add_arc` the final `enumerate_variables()` was skipped and the heuristic raised): refines on every history — the
+    entry arc's `add_arc` unsets `variables_enumerated`, so the final enumeration does run. -/
+theorem v2_refines (I : ArcInst) (ops : List ArcFOp) :
+    ((ArcObj.init I).runWith id ArcObj.resetAll ops).2 = (({ inst := I } : ArcAbs).specRun ops).2 :=
+  (arc_runWith_refines ArcObj.harmless_id ArcObj.harmless_resetAll (arc_coherent_init I) ops).1
 
-/-- what the V2 object answers: the heuristic raises `ValueError` -/
+/-- even with NO explicit reset at all inside `make_feasible` the object refines the specification -/
+theorem arc_no_explicit_reset_refines (I : ArcInst) (ops : List ArcFOp) :
+    ((ArcObj.init I).runWith id id ops).2 = (({ inst := I } : ArcAbs).specRun ops).2 :=
+  (arc_runWith_refines ArcObj.harmless_id ArcObj.harmless_id (arc_coherent_init I) ops).1
+
+/-- what the V2 object answers on its former counterexample: the heuristic now succeeds, as in the specification -/
 theorem v2_replies :
-    (((ArcObj.init exInst2).runWith id ArcObj.resetAll exHist).2)[1]? = some (.raised .value) ∧
+    (((ArcObj.init exInst2).runWith id ArcObj.resetAll exHist).2)[1]? = some .done ∧
     ((({ inst := exInst2 } : ArcAbs).specRun exHist).2)[1]? = some .done := by
   decide +kernel
 
-/-- without the earlier query V2 is not observable on this history (all flags are still unset) -/
 theorem v2_unnoticed_without_query :
     ((ArcObj.init exInst2).runWith id ArcObj.resetAll [.heur 100, .objective]).2
-      = (({ inst := exInst2 } : ArcAbs).specRun [.heur 100, .objective]).2 := by
+      = (({ inst := exInst2 } : ArcAbs).specRun [.heur 100, .objective]).2 :=
+  v2_refines exInst2 _
+
+/-- depot `D` and customer `B`, joined by arcs that are too long for the time grid: the greedy phase cannot visit `B`,
+    and the dummy-arc loop stops at `assert not self.check_arc((0, n))` — after the loop-head reset, before any
+    `add_arc` -/
+def exInst3 : ArcInst :=
+  { g := { nodes := [exNode "D", exNode "B"],
+           arcs := [((0, 1), ⟨"D", "B", 5, 1⟩), ((1, 0), ⟨"B", "D", 5, 1⟩)] },
+    T := [0, 1, 2] }
+
+/-- the model still tells V2 from the code at FLAG level (which the differential harness compares after every call):
+    when the heuristic raises at the `assert` before its first `add_arc`, the code has unset the three flags, V2 has
+    not.  (Not a refinement failure: the problem data did not change.) -/
+theorem v2_flags_differ :
+    let o₁ := ((ArcObj.init exInst3).run [.objective, .heur 100]).1
+    let o₂ := ((ArcObj.init exInst3).runWith id ArcObj.resetAll [.objective, .heur 100]).1
+    ((ArcObj.init exInst3).run [.objective, .heur 100]).2 = [.obj [] 0, .raised .assert] ∧
+    (o₁.variablesEnumerated, o₁.objectiveBuilt, o₁.constraintsBuilt) = (false, false, false) ∧
+    (o₂.variablesEnumerated, o₂.objectiveBuilt, o₂.constraintsBuilt) = (true, true, false) := by
+  decide +kernel
+
+/-! ### expressiveness: a mutator that forgets the hook -/
+
+/-- DEFECTIVE variant: `add_time_points` without `self._problem_changed()` (the code before the repair) -/
+def arcStepNoHookTP (o : ArcObj) : ArcFOp → ArcObj × ArcReply
+  | .addTimePoints pts => (o.addTimePointsWith id pts, .done)
+  | op => o.step op
+
+def arcRunNoHookTP (o : ArcObj) : List ArcFOp → ArcObj × List ArcReply
+  | [] => (o, [])
+  | op :: rest =>
+    let r := arcStepNoHookTP o op
+    let q := arcRunNoHookTP r.1 rest
+    (q.1, r.2 :: q.2)
+
+def exHistTP : List ArcFOp := [.numVars, .addTimePoints [0, 1, 2, 3], .numVars]
+
+/-- **query, mutator, query**: without the hook in `add_time_points` the variable count asked for before the grid was
+    extended is served again afterwards — refinement fails -/
+theorem arc_addTimePoints_nohook_not_refines :
+    (arcRunNoHookTP (ArcObj.init exInst1) exHistTP).2 ≠ (({ inst := exInst1 } : ArcAbs).specRun exHistTP).2 := by
+  decide +kernel
+
+theorem arc_addTimePoints_nohook_replies :
+    (arcRunNoHookTP (ArcObj.init exInst1) exHistTP).2 = [.num 6, .done, .num 6] ∧
+    (({ inst := exInst1 } : ArcAbs).specRun exHistTP).2 = [.num 6, .done, .num 12] ∧
+    ((ArcObj.init exInst1).run exHistTP).2 = [.num 6, .done, .num 12] := by
   decide +kernel
 
 /-! ## sequence-based object
@@ -364,32 +492,43 @@ theorem seq_abs_of_qpost {o o' : SeqObj} (h : SeqObj.QPost o o') : o'.abs = o.ab
   unfold SeqObj.abs
   rw [h.2.1, h.2.2]
 
-/-- one call from a coherent state: same reply as the specification, abstraction commutes, coherence preserved
-    (every operation, including a heuristic run that raises) -/
-theorem seq_step_refines {o : SeqObj} (hc : o.Coherent) (op : SeqFOp) :
-    (o.step op).2 = (o.abs.specStep op).2 ∧ (o.step op).1.abs = (o.abs.specStep op).1 ∧ (o.step op).1.Coherent := by
+/-- a forwarded mutator: same reply as the specification, abstraction commutes, and the object is coherent afterwards
+    because the hook has unset every flag (also when the call raises) -/
+theorem seq_mutate_refines (o : SeqObj) (m : GMut) :
+    SeqReply.ofGOut (o.mutate m).2 = (o.abs.mutate m).2 ∧ (o.mutate m).1.abs = (o.abs.mutate m).1 ∧
+      (o.mutate m).1.Coherent :=
+  ⟨rfl, rfl, (SeqObj.mutate_spec o m).1.coherent⟩
+
+/-- one call from a coherent state, with the loop-head reset of the code and ANY harmless flag action at the explicit
+    reset site of `_ensure_exit_arc`: same reply as the specification, abstraction commutes, coherence preserved (every
+    operation — queries, mutators including raising ones, and heuristic runs including raising ones) -/
+theorem seq_stepWith_refines {exit : SeqObj → SeqObj} (hx : SeqObj.Harmless exit) {o : SeqObj} (hc : o.Coherent)
+    (op : SeqFOp) :
+    (o.stepWith SeqObj.resetAll exit op).2 = (o.abs.specStep op).2 ∧
+      (o.stepWith SeqObj.resetAll exit op).1.abs = (o.abs.specStep op).1 ∧
+      (o.stepWith SeqObj.resetAll exit op).1.Coherent := by
   cases op with
   | numVars =>
-    have hs : o.step .numVars = (o.getNumVariables.1, SeqReply.num o.getNumVariables.2) := rfl
+    have hs : o.stepWith SeqObj.resetAll exit .numVars = (o.getNumVariables.1, SeqReply.num o.getNumVariables.2) := rfl
     rw [hs, SeqObj.getNum_eq hc]
     exact ⟨rfl, seq_abs_of_qpost (SeqObj.qpost_E hc), SeqObj.coherent_E hc⟩
   | varIndex u =>
-    have hs : o.step (.varIndex u) = ((o.getVarIndex u).1, SeqReply.idx (o.getVarIndex u).2) := rfl
+    have hs : o.stepWith SeqObj.resetAll exit (.varIndex u) = ((o.getVarIndex u).1, SeqReply.idx (o.getVarIndex u).2) := rfl
     rw [hs, SeqObj.getVarIndex_eq hc]
     exact ⟨rfl, seq_abs_of_qpost (SeqObj.qpost_E hc), SeqObj.coherent_E hc⟩
   | varTuple k =>
-    have hs : o.step (.varTuple k) = ((o.getVarTupleIndex k).1, SeqReply.tup (o.getVarTupleIndex k).2) := rfl
+    have hs : o.stepWith SeqObj.resetAll exit (.varTuple k) = ((o.getVarTupleIndex k).1, SeqReply.tup (o.getVarTupleIndex k).2) := rfl
     rw [hs, SeqObj.getVarTupleIndex_eq hc]
     exact ⟨rfl, seq_abs_of_qpost (SeqObj.qpost_E hc), SeqObj.coherent_E hc⟩
   | objective =>
     obtain ⟨hq, hd⟩ := SeqObj.getObjectiveData_spec hc
-    have hs : o.step .objective = (o.getObjectiveData.1,
+    have hs : o.stepWith SeqObj.resetAll exit .objective = (o.getObjectiveData.1,
         SeqReply.obj o.getObjectiveData.2.1 o.getObjectiveData.2.2.1 o.getObjectiveData.2.2.2) := rfl
     rw [hs, hd]
     exact ⟨rfl, seq_abs_of_qpost hq, hq.1⟩
   | constraints =>
     obtain ⟨hq, hd⟩ := SeqObj.getConstraintData_spec hc
-    have hs : o.step .constraints = (o.getConstraintData.1, (match o.getConstraintData.2 with
+    have hs : o.stepWith SeqObj.resetAll exit .constraints = (o.getConstraintData.1, (match o.getConstraintData.2 with
           | .ok d => SeqReply.con d.1 d.2.1 d.2.2.1 d.2.2.2.1 d.2.2.2.2
           | .error e => SeqReply.raised e)) := rfl
     rw [hs, hd]
@@ -400,7 +539,7 @@ theorem seq_step_refines {o : SeqObj} (hc : o.Coherent) (op : SeqFOp) :
     | some R => rfl
   | qubo feas rho? =>
     obtain ⟨hq, hd⟩ := SeqObj.getQubo_spec hc feas rho?
-    have hs : o.step (.qubo feas rho?) = ((o.getQubo feas rho?).1, (match (o.getQubo feas rho?).2 with
+    have hs : o.stepWith SeqObj.resetAll exit (.qubo feas rho?) = ((o.getQubo feas rho?).1, (match (o.getQubo feas rho?).2 with
         | .ok q => SeqReply.qubo q | .error e => SeqReply.raised e)) := rfl
     rw [hs, hd]
     refine ⟨?_, seq_abs_of_qpost hq, hq.1⟩
@@ -409,8 +548,8 @@ theorem seq_step_refines {o : SeqObj} (hc : o.Coherent) (op : SeqFOp) :
     | none => rfl
     | some d => rfl
   | heur high =>
-    obtain ⟨h1, h2, h3⟩ := SeqObj.makeFeasible_spec hc high
-    have hs : o.step (.heur high) = ((o.makeFeasible high).1, (match (o.makeFeasible high).2 with
+    obtain ⟨h1, h2, h3⟩ := SeqObj.makeFeasibleWith_spec hx hc high
+    have hs : o.stepWith SeqObj.resetAll exit (.heur high) = ((o.makeFeasibleWith SeqObj.resetAll exit high).1, (match (o.makeFeasibleWith SeqObj.resetAll exit high).2 with
         | .ok _ => SeqReply.done | .error e => SeqReply.raised e)) := rfl
     rw [hs]
     unfold SeqAbs.specStep
@@ -431,6 +570,18 @@ theorem seq_step_refines {o : SeqObj} (hc : o.Coherent) (op : SeqFOp) :
       rw [hr] at h3
       simp only [h3.2]
       exact ⟨trivial, by unfold SeqObj.abs; rw [h2, h3.1], h1⟩
+  | setMaxVehicles v => exact ⟨rfl, rfl, (SeqObj.setMaxVehicles_spec o v).1.coherent⟩
+  | setMaxSeqLen l => exact ⟨rfl, rfl, (SeqObj.setMaxSeqLen_spec o l).1.coherent⟩
+  | addArc og d t c => exact seq_mutate_refines o _
+  | addNode nm dem lo hi => exact seq_mutate_refines o _
+  | setDepot nm => exact seq_mutate_refines o _
+  | setVehicleCap c => exact seq_mutate_refines o (.cap c)
+  | setInitialLoading l => exact seq_mutate_refines o (.init l)
+
+/-- one call on the real object from a coherent state -/
+theorem seq_step_refines {o : SeqObj} (hc : o.Coherent) (op : SeqFOp) :
+    (o.step op).2 = (o.abs.specStep op).2 ∧ (o.step op).1.abs = (o.abs.specStep op).1 ∧ (o.step op).1.Coherent :=
+  seq_stepWith_refines SeqObj.harmless_resetAll hc op
 
 /-- `coherent_init` -/
 theorem seq_coherent_init (I : SeqInst) : (SeqObj.init I).Coherent := SeqObj.coherent_init I
@@ -450,19 +601,27 @@ theorem seq_run_append (o : SeqObj) (a b : List SeqFOp) :
     rw [List.cons_append, seq_run_cons, ih, seq_run_cons]
     rfl
 
-/-- refinement from an arbitrary coherent state -/
-theorem seq_run_refines {o : SeqObj} (hc : o.Coherent) (ops : List SeqFOp) :
-    (o.run ops).2 = (o.abs.specRun ops).2 ∧ (o.run ops).1.abs = (o.abs.specRun ops).1 ∧ (o.run ops).1.Coherent := by
+/-- refinement from an arbitrary coherent state, for any harmless flag action at the explicit reset site of
+    `_ensure_exit_arc` -/
+theorem seq_runWith_refines {exit : SeqObj → SeqObj} (hx : SeqObj.Harmless exit) {o : SeqObj} (hc : o.Coherent)
+    (ops : List SeqFOp) :
+    (o.runWith SeqObj.resetAll exit ops).2 = (o.abs.specRun ops).2 ∧
+      (o.runWith SeqObj.resetAll exit ops).1.abs = (o.abs.specRun ops).1 ∧
+      (o.runWith SeqObj.resetAll exit ops).1.Coherent := by
   induction ops generalizing o with
   | nil => exact ⟨rfl, rfl, hc⟩
   | cons op rest ih =>
-    obtain ⟨h1, h2, h3⟩ := seq_step_refines hc op
+    obtain ⟨h1, h2, h3⟩ := seq_stepWith_refines hx hc op
     obtain ⟨i1, i2, i3⟩ := ih h3
-    rw [seq_run_cons]
-    unfold SeqAbs.specRun
+    unfold SeqObj.runWith SeqAbs.specRun
     simp only
     rw [← h2, ← h1, i1, i2]
     exact ⟨rfl, rfl, i3⟩
+
+/-- refinement from an arbitrary coherent state -/
+theorem seq_run_refines {o : SeqObj} (hc : o.Coherent) (ops : List SeqFOp) :
+    (o.run ops).2 = (o.abs.specRun ops).2 ∧ (o.run ops).1.abs = (o.abs.specRun ops).1 ∧ (o.run ops).1.Coherent :=
+  seq_runWith_refines SeqObj.harmless_resetAll hc ops
 
 /-- **refinement**: for every history the object produces exactly the replies of the cache-free specification, and
     the final problem data and stored solution agree -/
@@ -472,17 +631,22 @@ theorem seq_refines (I : SeqInst) (ops : List SeqFOp) :
   obtain ⟨h1, h2, _⟩ := seq_run_refines (seq_coherent_init I) ops
   exact ⟨h1, h2⟩
 
-/-- in the specification a query changes nothing -/
-theorem seq_spec_query_pure (s : SeqAbs) (q : SeqFOp) (hq : q.isHeur = false) : (s.specStep q).1 = s := by
-  cases q <;> first | rfl | simp [SeqFOp.isHeur] at hq
+/-- in the specification a query (neither heuristic nor mutator) changes nothing -/
+theorem seq_spec_query_pure (s : SeqAbs) (q : SeqFOp) (hq : q.isChange = false) : (s.specStep q).1 = s := by
+  cases q <;> first | rfl | simp [SeqFOp.isChange, SeqFOp.isHeur, SeqFOp.isMutator, SeqFOp.gmut?] at hq
 
-/-- in the specification the final state only depends on the heuristic calls -/
+theorem seq_isChange_false {q : SeqFOp} (hq : q.isHeur = false) (hm : q.isMutator = false) : q.isChange = false := by
+  unfold SeqFOp.isChange
+  rw [hq, hm]
+  rfl
+
+/-- in the specification the final state only depends on the state-changing calls (heuristic runs and mutators) -/
 theorem seq_spec_run_filter (s : SeqAbs) (ops : List SeqFOp) :
-    (s.specRun ops).1 = (s.specRun (ops.filter SeqFOp.isHeur)).1 := by
+    (s.specRun ops).1 = (s.specRun (ops.filter SeqFOp.isChange)).1 := by
   induction ops generalizing s with
   | nil => rfl
   | cons op rest ih =>
-    cases hq : op.isHeur with
+    cases hq : op.isChange with
     | true =>
       rw [List.filter_cons_of_pos hq]
       simp only [SeqAbs.specRun]
@@ -493,32 +657,39 @@ theorem seq_spec_run_filter (s : SeqAbs) (ops : List SeqFOp) :
       rw [seq_spec_query_pure s op hq]
       exact ih s
 
-/-- replies given to the heuristic calls of a history -/
-def seqHeurReplies (ops : List SeqFOp) (rs : List SeqReply) : List SeqReply :=
-  ((ops.zip rs).filter fun e => e.1.isHeur).map (·.2)
+/-- replies given to the state-changing calls (heuristic runs and mutators) of a history -/
+def seqChangeReplies (ops : List SeqFOp) (rs : List SeqReply) : List SeqReply :=
+  ((ops.zip rs).filter fun e => e.1.isHeur || e.1.isMutator).map (·.2)
 
-theorem seq_spec_heur_replies (s : SeqAbs) (ops : List SeqFOp) :
-    seqHeurReplies ops (s.specRun ops).2 = (s.specRun (ops.filter SeqFOp.isHeur)).2 := by
+theorem seq_spec_change_replies (s : SeqAbs) (ops : List SeqFOp) :
+    seqChangeReplies ops (s.specRun ops).2 = (s.specRun (ops.filter SeqFOp.isChange)).2 := by
   induction ops generalizing s with
   | nil => rfl
   | cons op rest ih =>
-    cases hq : op.isHeur with
+    have hp : ∀ (r : SeqReply) l, ((op, r) :: l).filter (fun e => e.1.isHeur || e.1.isMutator)
+        = if op.isChange then (op, r) :: l.filter (fun e => e.1.isHeur || e.1.isMutator)
+          else l.filter (fun e => e.1.isHeur || e.1.isMutator) := fun r l => by
+      rw [List.filter_cons]
+      rfl
+    cases hq : op.isChange with
     | true =>
       rw [List.filter_cons_of_pos hq]
-      simp only [SeqAbs.specRun, seqHeurReplies, List.zip_cons_cons, List.filter_cons_of_pos, hq, List.map_cons]
+      simp only [SeqAbs.specRun, seqChangeReplies, List.zip_cons_cons, hp, hq, if_true, List.map_cons]
       exact congrArg _ (ih _)
     | false =>
       rw [List.filter_cons_of_neg (by simp [hq])]
-      simp only [SeqAbs.specRun, seqHeurReplies, List.zip_cons_cons]
-      rw [List.filter_cons_of_neg (by simp [hq]), seq_spec_query_pure s op hq]
+      simp only [SeqAbs.specRun, seqChangeReplies, List.zip_cons_cons, hp, hq, Bool.false_eq_true, if_false]
+      rw [seq_spec_query_pure s op hq]
       exact ih s
 
-/-- **asking twice gives equal results**: after any history, repeating a query gives the same reply, and the query
-    leaves the problem data and the stored solution as they were -/
-theorem seq_query_idempotent (I : SeqInst) (ops : List SeqFOp) (q : SeqFOp) (hq : q.isHeur = false) :
+/-- **asking twice gives equal results**: after any history (queries, mutators, heuristic runs), repeating a query gives
+    the same reply, and the query leaves the problem data and the stored solution as they were -/
+theorem seq_query_idempotent (I : SeqInst) (ops : List SeqFOp) (q : SeqFOp) (hq : q.isHeur = false)
+    (hm : q.isMutator = false) :
     let o := ((SeqObj.init I).run ops).1
     (o.step q).2 = ((o.step q).1.step q).2 ∧ (o.step q).1.abs = o.abs ∧ ((o.step q).1.step q).1.abs = o.abs := by
   intro o
+  have hq := seq_isChange_false hq hm
   obtain ⟨_, _, hc⟩ := seq_run_refines (seq_coherent_init I) ops
   obtain ⟨h1, h2, h3⟩ := seq_step_refines hc q
   obtain ⟨k1, k2, _⟩ := seq_step_refines h3 q
@@ -529,33 +700,40 @@ theorem seq_query_idempotent (I : SeqInst) (ops : List SeqFOp) (q : SeqFOp) (hq 
 
 /-- any two queries commute as far as replies are concerned: the reply to `q₂` does not depend on whether `q₁` was
     asked before ("in any order") -/
-theorem seq_query_order (I : SeqInst) (ops : List SeqFOp) (q₁ q₂ : SeqFOp) (hq : q₁.isHeur = false) :
+theorem seq_query_order (I : SeqInst) (ops : List SeqFOp) (q₁ q₂ : SeqFOp) (hq : q₁.isHeur = false)
+    (hm : q₁.isMutator = false) :
     let o := ((SeqObj.init I).run ops).1
     ((o.step q₁).1.step q₂).2 = (o.step q₂).2 := by
   intro o
+  have hq := seq_isChange_false hq hm
   obtain ⟨_, _, hc⟩ := seq_run_refines (seq_coherent_init I) ops
   obtain ⟨_, h2, h3⟩ := seq_step_refines hc q₁
   rw [(seq_step_refines h3 q₂).1, (seq_step_refines hc q₂).1, h2, seq_spec_query_pure _ q₁ hq]
 
-/-- **queries issued before (or between) heuristic runs do not alter anything obtained afterwards**: deleting all
-    queries from a history changes neither the problem data, nor the stored solution, nor the outcome of any heuristic
-    run in it, nor any reply to calls made later -/
+/-- **queries do not alter anything obtained afterwards**: deleting all queries from a history — keeping every
+    state-changing call, i.e. every heuristic run and every mutator — changes neither the problem data, nor the stored
+    solution, nor the reply of any kept call (outcome of a heuristic run, return value / exception of a mutator), nor
+    any reply to calls made later -/
 theorem seq_queries_irrelevant (I : SeqInst) (ops later : List SeqFOp) :
-    ((SeqObj.init I).run ops).1.abs = ((SeqObj.init I).run (ops.filter SeqFOp.isHeur)).1.abs ∧
-    seqHeurReplies ops ((SeqObj.init I).run ops).2 = ((SeqObj.init I).run (ops.filter SeqFOp.isHeur)).2 ∧
-    (((SeqObj.init I).run ops).1.run later).2 = (((SeqObj.init I).run (ops.filter SeqFOp.isHeur)).1.run later).2 := by
+    let f := ops.filter (fun op => op.isHeur || op.isMutator)
+    ((SeqObj.init I).run ops).1.abs = ((SeqObj.init I).run f).1.abs ∧
+    seqChangeReplies ops ((SeqObj.init I).run ops).2 = ((SeqObj.init I).run f).2 ∧
+    (((SeqObj.init I).run ops).1.run later).2 = (((SeqObj.init I).run f).1.run later).2 := by
+  show ((SeqObj.init I).run ops).1.abs = ((SeqObj.init I).run (ops.filter SeqFOp.isChange)).1.abs ∧
+    seqChangeReplies ops ((SeqObj.init I).run ops).2 = ((SeqObj.init I).run (ops.filter SeqFOp.isChange)).2 ∧
+    (((SeqObj.init I).run ops).1.run later).2 = (((SeqObj.init I).run (ops.filter SeqFOp.isChange)).1.run later).2
   obtain ⟨r1, a1, c1⟩ := seq_run_refines (seq_coherent_init I) ops
-  obtain ⟨r2, a2, c2⟩ := seq_run_refines (seq_coherent_init I) (ops.filter SeqFOp.isHeur)
-  have h : ((SeqObj.init I).run ops).1.abs = ((SeqObj.init I).run (ops.filter SeqFOp.isHeur)).1.abs := by
+  obtain ⟨r2, a2, c2⟩ := seq_run_refines (seq_coherent_init I) (ops.filter SeqFOp.isChange)
+  have h : ((SeqObj.init I).run ops).1.abs = ((SeqObj.init I).run (ops.filter SeqFOp.isChange)).1.abs := by
     rw [a1, a2]; exact seq_spec_run_filter _ ops
   refine ⟨h, ?_, ?_⟩
-  · rw [r1, r2]; exact seq_spec_heur_replies _ ops
+  · rw [r1, r2]; exact seq_spec_change_replies _ ops
   · rw [(seq_run_refines c1 later).1, (seq_run_refines c2 later).1, h]
 
 /-- in particular the routes decoded from any solution vector and the index maps are the same -/
 theorem seq_queries_irrelevant_decode (I : SeqInst) (ops : List SeqFOp) (x : List Rat) (u : STup) (k : Nat) :
     let o₁ := ((SeqObj.init I).run ops).1
-    let o₂ := ((SeqObj.init I).run (ops.filter SeqFOp.isHeur)).1
+    let o₂ := ((SeqObj.init I).run (ops.filter (fun op => op.isHeur || op.isMutator))).1
     o₁.inst.decode x = o₂.inst.decode x ∧ o₁.inst.varIndex u = o₂.inst.varIndex u ∧
       o₁.inst.varTuple k = o₂.inst.varTuple k ∧ o₁.sol = o₂.sol := by
   intro o₁ o₂
@@ -627,7 +805,7 @@ theorem seq_coarse_cex_refines :
       = (({ inst := C14.cexInst } : SeqAbs).specRun [.objective, .heur 100, .objective]).2 :=
   (seq_refines C14.cexInst _).1
 
-/-! ### expressiveness: a defective `_ensure_exit_arc` -/
+/-! ### the explicit flag resets inside the sequence heuristic after the introduction of the hook -/
 
 /-- depot `D` (with its self-arc) and one customer `A` that can be entered but has no arc back -/
 def exSeq : SeqInst :=
@@ -635,17 +813,106 @@ def exSeq : SeqInst :=
            arcs := [((0, 0), ⟨"D", "D", 0, 0⟩), ((0, 1), ⟨"D", "A", 1, 1⟩)] },
     strict := false, V := 1, L := 4, vcost := [0] }
 
-/-- `_ensure_exit_arc` without its four flag resets: the vehicle visits `A`, the exit arc `A → D` is added, no node is
-    left for the dummy-vehicle loop, so no reset site is passed; the variable count asked for before the heuristic is
-    served again although position `L-2` at `A` has become a free variable -/
-theorem seq_exit_noreset_not_refines :
-    ((SeqObj.init exSeq).runWith SeqObj.resetAll id [.numVars, .heur 10, .numVars]).2
-      ≠ (({ inst := exSeq } : SeqAbs).specRun [.numVars, .heur 10, .numVars]).2 := by
+theorem seq_resetAll_of_unset {o : SeqObj} (h : SeqObj.Unset o) : o.resetAll = o := by
+  obtain ⟨h1, h2, h3, h4⟩ := h
+  cases o
+  simp_all [SeqObj.resetAll]
+
+theorem seq_ensureExitArc_id (o : SeqObj) (cur : Nat) :
+    o.ensureExitArc id cur = o.ensureExitArc SeqObj.resetAll cur := by
+  unfold SeqObj.ensureExitArc
+  simp only [id, seq_resetAll_of_unset (SeqObj.addArcIdx_spec o cur 0 0 0).1]
+
+theorem seq_fill_id (v k p cur : Nat) (o : SeqObj) (unv : List Nat) (used : List STup) :
+    SeqObj.fill id v k p cur o unv used = SeqObj.fill SeqObj.resetAll v k p cur o unv used := by
+  induction k generalizing p cur unv used with
+  | zero => unfold SeqObj.fill; rw [seq_ensureExitArc_id]
+  | succ k ih =>
+    unfold SeqObj.fill
+    rw [seq_ensureExitArc_id]
+    cases List.find? (fun n => o.inst.g.hasArc cur n) unv with
+    | some n => exact ih _ _ _ _
+    | none => rfl
+
+theorem seq_vehLoop_id (vs : List Nat) (o : SeqObj) (unv : List Nat) (used : List STup) :
+    SeqObj.vehLoop id vs o unv used = SeqObj.vehLoop SeqObj.resetAll vs o unv used := by
+  induction vs generalizing o unv used with
+  | nil => rfl
+  | cons v vs ih =>
+    unfold SeqObj.vehLoop
+    rw [seq_fill_id]
+    simp only [ih]
+
+/-- **`_ensure_exit_arc` without its four flag resets.**  RESTATED (was `seq_exit_noreset_not_refines`, which held while
+    `add_arc` did not invalidate the caches: on `exSeq` the variable count asked for before the heuristic was served
+    again afterwards).  `_ensure_exit_arc` adds its arc through the public `add_arc`, whose hook has already unset the
+    four flags, so the explicit reset after it is redundant: the variant is the code, on every object, flags included. -/
+theorem seq_exit_noreset_equivalent (o : SeqObj) (high : Rat) :
+    o.makeFeasibleWith SeqObj.resetAll id high = o.makeFeasible high := by
+  unfold SeqObj.makeFeasible SeqObj.makeFeasibleWith
+  simp only [seq_vehLoop_id]
+
+/-- hence it refines the specification on every history -/
+theorem seq_exit_noreset_refines (I : SeqInst) (ops : List SeqFOp) :
+    ((SeqObj.init I).runWith SeqObj.resetAll id ops).2 = (({ inst := I } : SeqAbs).specRun ops).2 :=
+  (seq_runWith_refines SeqObj.harmless_id (seq_coherent_init I) ops).1
+
+/-- the former counterexample, evaluated: the second count is now the fresh one -/
+theorem seq_exit_noreset_replies :
+    ((SeqObj.init exSeq).runWith SeqObj.resetAll id [.numVars, .heur 10, .numVars]).2 = [.num 3, .done, .num 4] ∧
+    (({ inst := exSeq } : SeqAbs).specRun [.numVars, .heur 10, .numVars]).2 = [.num 3, .done, .num 4] := by
   decide +kernel
 
-theorem seq_exit_noreset_replies :
-    ((SeqObj.init exSeq).runWith SeqObj.resetAll id [.numVars, .heur 10, .numVars]).2 = [.num 3, .done, .num 3] ∧
-    (({ inst := exSeq } : SeqAbs).specRun [.numVars, .heur 10, .numVars]).2 = [.num 3, .done, .num 4] := by
+/-! ### expressiveness: the loop-head reset of the sequence heuristic is still needed -/
+
+/-- depot `D` and one customer `A` with both arcs present, but NO regular vehicle: `A` is left for the dummy-vehicle
+    loop, which appends a vehicle (direct writes of `max_vehicles` / `vehicle_cost`, no hook) and finds both arcs in
+    place, so no `add_arc` — hence no hook — is executed -/
+def exSeq0 : SeqInst :=
+  { g := { nodes := [exNode "D", exNode "A"],
+           arcs := [((0, 0), ⟨"D", "D", 0, 0⟩), ((0, 1), ⟨"D", "A", 1, 1⟩), ((1, 0), ⟨"A", "D", 1, 1⟩)] },
+    strict := false, V := 0, L := 4, vcost := [] }
+
+/-- without the four resets at the head of the dummy-vehicle loop the variable count asked for before the heuristic is
+    served again although a vehicle was added, the final `enumerate_variables()` is skipped, and the heuristic raises
+    where the specification succeeds — refinement fails -/
+theorem seq_head_noreset_not_refines :
+    ((SeqObj.init exSeq0).runWith id SeqObj.resetAll [.numVars, .heur 10, .numVars]).2
+      ≠ (({ inst := exSeq0 } : SeqAbs).specRun [.numVars, .heur 10, .numVars]).2 := by
+  decide +kernel
+
+theorem seq_head_noreset_replies :
+    ((SeqObj.init exSeq0).runWith id SeqObj.resetAll [.numVars, .heur 10, .numVars]).2
+      = [.num 0, .raised .value, .num 0] ∧
+    (({ inst := exSeq0 } : SeqAbs).specRun [.numVars, .heur 10, .numVars]).2 = [.num 0, .done, .num 4] := by
+  decide +kernel
+
+/-! ### expressiveness: a mutator that forgets the hook -/
+
+/-- DEFECTIVE variant: `set_max_vehicles` without `self._problem_changed()` (the code before the repair) -/
+def seqStepNoHookV (o : SeqObj) : SeqFOp → SeqObj × SeqReply
+  | .setMaxVehicles v => (o.setMaxVehiclesWith id v, .done)
+  | op => o.step op
+
+def seqRunNoHookV (o : SeqObj) : List SeqFOp → SeqObj × List SeqReply
+  | [] => (o, [])
+  | op :: rest =>
+    let r := seqStepNoHookV o op
+    let q := seqRunNoHookV r.1 rest
+    (q.1, r.2 :: q.2)
+
+def exHistV : List SeqFOp := [.numVars, .setMaxVehicles 2, .numVars]
+
+/-- **query, mutator, query**: without the hook in `set_max_vehicles` the variable count asked for before the second
+    vehicle was made available is served again afterwards — refinement fails -/
+theorem seq_setMaxVehicles_nohook_not_refines :
+    (seqRunNoHookV (SeqObj.init exSeq) exHistV).2 ≠ (({ inst := exSeq } : SeqAbs).specRun exHistV).2 := by
+  decide +kernel
+
+theorem seq_setMaxVehicles_nohook_replies :
+    (seqRunNoHookV (SeqObj.init exSeq) exHistV).2 = [.num 3, .done, .num 3] ∧
+    (({ inst := exSeq } : SeqAbs).specRun exHistV).2 = [.num 3, .done, .num 6] ∧
+    ((SeqObj.init exSeq).run exHistV).2 = [.num 3, .done, .num 6] := by
   decide +kernel
 
 end Vrp.C14c
